@@ -398,4 +398,58 @@ func c10ReturnsPublished(ctx *core.Ctx) {
 		}
 	}
 	ctx.Check(bad == "" && n > 0, "K8", "par.Cache.Do#returns-result", do.Pos(), "every return of Do yields the published result %s", bad)
+	// ---- K9: one entry, one key
+	ctx.Rule("K9", "an entry belongs to one key: the candidate handed to LoadOrStore is allocated in that very call of Do (new(cacheEntry)) and goes nowhere else - not into a pool or a package variable, from which it could come back for another key", 1)
+	k := 0
+	for _, c := range g.Calls("(*sync.Map).LoadOrStore") {
+		k++
+		cand := ssax.Strip(c.Call.Args[2])
+		al, isAl := cand.(*ssa.Alloc)
+		why := ""
+		if !isAl || !al.Heap {
+			why = "the candidate is " + cand.String() + ", not a fresh allocation"
+		} else {
+			for _, r := range ssax.Referrers(al) {
+				switch x := r.(type) {
+				case *ssa.MakeInterface:
+					for _, q := range ssax.Referrers(x) {
+						if q != ssa.Instruction(c) {
+							if _, isDbg := q.(*ssa.DebugRef); !isDbg {
+								why = "the candidate is also given to " + q.String()
+							}
+						}
+					}
+				case *ssa.DebugRef, *ssa.FieldAddr:
+				case *ssa.Store:
+					if x.Val == ssa.Value(al) {
+						why = "the candidate is stored elsewhere"
+					}
+				default:
+					why = "the candidate is also used by " + r.String()
+				}
+			}
+		}
+		ctx.Check(why == "", "K9", "par.Cache.Do#candidate"+itoa(k), c.Pos(), "the entry offered to the map is new and private to this call %s", why)
+	}
+	// ... and nothing taken out of the map is handed on (a live entry put into a pool is handed to the next key)
+	for _, f := range []*ssa.Function{do, p.Func("par", "(*Cache).Get")} {
+		if f == nil {
+			continue
+		}
+		fg := graph(p, f)
+		for _, c := range fg.Calls("(*sync.Map).Load", "(*sync.Map).LoadOrStore") {
+			got := ssax.Extracted(c, 0)
+			if got == nil {
+				continue
+			}
+			for _, r := range ssax.Referrers(got) {
+				ci, isCall := r.(ssa.CallInstruction)
+				if !isCall {
+					continue
+				}
+				k++
+				ctx.Bad("K9", shortFn(f)+"#entry-escapes"+itoa(k), r.Pos(), "the entry found in the map is passed to %s", ssax.CalleeName(ci.Common()))
+			}
+		}
+	}
 }
